@@ -28,7 +28,7 @@ RELIED = ["constant", "event_type", "checkfixed", "variable", "cplx_decay_line",
 
 
 def run(ctx, ss):
-    for r, f in (("C17.1", c17_1), ("C17.2", c17_2), ("C17.3", c17_3), ("C17.4", c17_4), ("C17.5", c17_5), ("C17.5", c17_7), ("C17.8", c17_8)):
+    for r, f in (("C17.1", c17_1), ("C17.2", c17_2), ("C17.3", c17_3), ("C17.4", c17_4), ("C17.5", c17_5), ("C17.5", c17_7), ("C17.8", c17_8), ("C17.9", c17_9)):
         ctx.guard(r, f, ss)
 
 
@@ -517,3 +517,104 @@ def c17_8(ctx, ss):
         [(txt(e), pol) for kind, e, pol in guards.path_conditions(mf_.node, sd[0]) if kind == "if"] in ([("mat['daughters']", True)], [])
     (ctx.holds if okd else ctx.violation)("C17.8", ckey(mf_, None, "daughters"), where(mf_, mf_.node),
                                           "every daughter dictionary is converted recursively" if okd else "not every daughter is converted recursively")
+
+
+# ---------------------------------------------------------------------------------------------------------------
+# C17.9: the options language itself (ampgen.lark), decided on the grammar Lark compiles: child words of the trees
+# the reader relies on, statement kinds, keywords / punctuation, token languages (by automata), framing, ignores.
+AMP_SHAPES = {
+    "event_type": (r"T:particle( T:particle)+", ["T:particle T:particle", "T:particle T:particle T:particle T:particle T:particle"], True),
+    "constant": (r"T:particle K:SIGNED_NUMBER", ["T:particle K:SIGNED_NUMBER"], False),
+    "variable": (r"T:particle T:checkfixed K:SIGNED_NUMBER K:SIGNED_NUMBER", ["T:particle T:checkfixed K:SIGNED_NUMBER K:SIGNED_NUMBER"], False),
+    "cplx_decay_line": (r"T:decay T:fixed_cplx T:fixed_cplx", ["T:decay T:fixed_cplx T:fixed_cplx"], False),
+    "fixed_cplx": (r"T:checkfixed K:SIGNED_NUMBER K:SIGNED_NUMBER", ["T:checkfixed K:SIGNED_NUMBER K:SIGNED_NUMBER"], False),
+    "checkfixed": (r"K:SIGNED_NUMBER", ["K:SIGNED_NUMBER"], False),
+    "decay": (r"T:particle(( T:decaytype)? T:subdecay)?", ["T:particle", "T:particle T:subdecay", "T:particle T:decaytype T:subdecay"], False),
+    "decaytype": (r"(T:spinfactor|T:lineshape)( T:lineshape)?", ["T:spinfactor", "T:lineshape", "T:spinfactor T:lineshape", "T:lineshape T:lineshape"], False),
+    "subdecay": (r"T:decay T:decay", ["T:decay T:decay"], False),
+    "spinfactor": (r"K:SPIN", ["K:SPIN"], False),
+    "lineshape": (r"K:LINESHAPE", ["K:LINESHAPE"], False),
+    "particle": (r"K:LABEL", ["K:LABEL"], False),
+    "fast_coherent_sum": (r"K:INT", ["K:INT"], False),
+}
+AMP_KEYWORDS = {"event_type": {"EventType"}, "fast_coherent_sum": {"FastCoherentSum::UseCartesian"}, "decaytype": {"[", ";", "]"},
+                "subdecay": {"{", ",", "}"}}
+AMP_LINES = {"cplx_decay_line", "constant", "variable", "event_type", "options"}
+# token languages the option files are written in (⊇: a narrower token no longer reads names / tags that files contain)
+AMP_LABEL = r"(?:[A-Za-z0-9_/'*+\-()]|::)+"
+AMP_LINESHAPE = r"[A-Za-z0-9_/][A-Za-z0-9_/.]+"
+AMP_NEWLINE = r"(?:\r?\n[\t ]*|#[^\n]*)+"
+AMP_COMMENT = r"#[^\n]*"
+
+
+def c17_9(ctx, ss):
+    import re as _re
+    from ..core.larkfacts import SymAlphabet, ebnf_regex
+    from ..core.rx import Rx, includes
+    gf = grammar_facts(ss, G)
+    loc = f"src/decaylanguage/{G}"
+    for name, (rx, wit, unb) in AMP_SHAPES.items():
+        k = f"{G}:{name}"
+        if name not in gf.tree_names:
+            ctx.violation("C17.9", k, loc, f"the grammar creates no `{name}` node any more")
+            continue
+        words = set(gf.word_strs(name))
+        bad = sorted(w for w in words if not _re.fullmatch(rx, w))
+        missing = [w for w in wit if w not in words]
+        if bad:
+            ctx.violation("C17.9", k, loc, f"rule `{name}` can have children [{bad[0]}], outside the shape {rx}", len(words))
+        elif missing:
+            ctx.violation("C17.9", k, loc, f"rule `{name}` can no longer have children [{missing[0]}] (shape {rx})", len(words))
+        elif unb and not gf.unbounded(name):
+            ctx.violation("C17.9", k, loc, f"rule `{name}` no longer repeats without bound", len(words))
+        else:
+            ctx.holds("C17.9", k, loc, f"child words of `{name}` ⊆ {rx}, witnesses present", len(words))
+    for t, want in AMP_KEYWORDS.items():
+        got = gf.keywords(t)
+        (ctx.holds if got == want else ctx.violation)("C17.9", f"{G}:{t} :: keywords", loc, f"`{t}` is written with {sorted(want)}" if got == want
+                                                      else f"`{t}` is recognised by {sorted(got)}, option files write {sorted(want)}", len(want))
+    alts = gf.line_alternatives()
+    miss = sorted(AMP_LINES - alts)
+    (ctx.holds if not miss else ctx.violation)("C17.9", f"{G}:line :: statement-kinds", loc, f"a line can be each of {sorted(AMP_LINES)}" if not miss
+                                               else f"a line can no longer be {miss}: such lines of an options text are rejected", len(alts))
+    optw = set(gf.word_strs("options")) if "options" in gf.tree_names else set()
+    oko = "T:fast_coherent_sum" in optw
+    (ctx.holds if oko else ctx.violation)("C17.9", f"{G}:options :: coherent-sum", loc, "the coherent-sum option is an `options` line" if oko
+                                          else "the coherent-sum option is no longer an alternative of `options`", len(optw))
+    # closed tag set
+    sp = gf.terminal_words("SPIN")
+    (ctx.holds if sp == {"S", "P", "D"} else ctx.violation)("C17.9", f"{G}:SPIN", loc, "SPIN = {S, P, D}" if sp == {"S", "P", "D"}
+                                                           else f"SPIN accepts {sorted(sp) if sp else 'an infinite language'}, the spin tags are S, P, D", 3)
+    for tn, want, why in (("LABEL", AMP_LABEL, "particle / parameter names"), ("LINESHAPE", AMP_LINESHAPE, "line-shape tags"),
+                          ("_NEWLINE", AMP_NEWLINE, "line ends, blank lines and comment lines"), ("COMMENT", AMP_COMMENT, "comments")):
+        k = f"{G}:{tn} :: language"
+        if tn not in gf.terminals:
+            ctx.violation("C17.9", k, loc, f"{tn} is no longer a token of the grammar on its own ({why} are not recognised / not skipped)")
+            continue
+        got = Rx(gf.term_regex(tn))
+        wit_ = includes(got, Rx(want))
+        if wit_ is not None:
+            ctx.violation("C17.9", k, loc, f"{tn} no longer matches {wit_!r} ({why} that option files contain)", got.n_states())
+        elif got.accepts(""):
+            ctx.violation("C17.9", k, loc, f"{tn} matches the empty string: no parser can be built from the grammar", got.n_states())
+        else:
+            ctx.holds("C17.9", k, loc, f"{tn} ⊇ {want}", got.n_states())
+    # a spin tag is never also a line-shape tag (the lexer would be free to read [S] as a line shape)
+    from ..core.rx import witness_common
+    wc = witness_common(Rx(gf.term_regex("SPIN")), Rx(gf.term_regex("LINESHAPE")))
+    (ctx.holds if wc is None else ctx.violation)("C17.9", f"{G}:SPIN-LINESHAPE :: disjoint", loc, "no text is both a SPIN and a LINESHAPE" if wc is None
+                                                 else f"{wc!r} is both a SPIN and a LINESHAPE: the tag written in brackets can be read as the other kind", 2)
+    ig = set(gf.ignore)
+    missi = sorted({"COMMENT", "WS_INLINE"} - ig)
+    (ctx.holds if not missi else ctx.violation)("C17.9", f"{G}:ignore", loc, "comments and blanks between tokens are ignored" if not missi
+                                                else f"{missi} no longer ignored: trailing comments / spaces between tokens are rejected", 2)
+    # framing: optional leading line end, then one or more lines each closed by a line end
+    alpha = SymAlphabet()
+    got = ebnf_regex(gf.rule_defs["start"][1], alpha)
+    n_, l_ = alpha.map.get("T:_NEWLINE"), alpha.map.get("N:line")
+    if n_ is None or l_ is None:
+        ctx.violation("C17.9", f"{G}:start :: framing", loc, "the start rule no longer consists of lines and line ends")
+    else:
+        wit_ = includes(Rx(got), Rx(f"(?:{n_})?(?:{l_}{n_})+"))
+        (ctx.holds if wit_ is None else ctx.violation)("C17.9", f"{G}:start :: framing", loc, "start ⊇ NEWLINE? (line NEWLINE)+" if wit_ is None
+                                                       else f"the start rule rejects the line sequence {wit_!r} (a = line end, b = line): texts with several lines / a leading blank line are no longer read", 3)
